@@ -210,7 +210,10 @@ partial def loop (h : IO.FS.Stream) (m : SeqMod) : IO Unit := do
     let e : Int := 2 ^ 40
     let lo := Tick.getTicksize (i freq) (tfN * (e - 1)) (tfD * e) rrN rrD (i bpm)
     let hi := Tick.getTicksize (i freq) (tfN * (e + 1)) (tfD * e) rrN rrD (i bpm)
-    IO.println s!"q {t} {pt} {bs} {lo} {hi}"
+    let plo := Tick.prepare (i freq) (tfN * (e - 1)) (tfD * e) rrN rrD (i bpm)
+    let phi := Tick.prepare (i freq) (tfN * (e + 1)) (tfD * e) rrN rrD (i bpm)
+    let b := fun (x : Int) => Tick.bufferSize x (mono != "0") (bit8 != "0")
+    IO.println s!"q {t} {pt} {bs} {lo} {hi} {plo} {b plo} {phi} {b phi}"
     loop h m
   | ["tfac", freq, vM, vE, rrM, rrE, bpm] =>
     let i := fun (s : String) => s.toInt?.getD 0
